@@ -378,6 +378,15 @@ def unit_std_tensor(prop):
     return unit
 
 
+def unit_std_apply_tensor(prop):
+    def unit(tier, known):
+        from contracts import standardize as C
+        jobs = [("contracts.standardize", "generate_apply_tensor", (prop, label)) for label in C.apply_tensor_labels()]
+        return run_parallel("std_apply_tensor", jobs, to_case=C.to_case, replay_module="rtc.c16")
+    unit.__name__ = "std_apply_tensor"
+    return unit
+
+
 def unit_stack(prop):
     def unit(tier, known):
         from contracts import post_stack as C
@@ -393,7 +402,7 @@ UNITS = {
     "C03": [unit_si("C03", w) for w in ("chunk", "handle_skip", "preamble", "finalize", "full", "geometry")] + [unit_si_frame("C03", w) for w in ("fill", "frame", "dft", "idft")],
     "C13": [_lazy("contracts.shorten", "unit_bit_reader", "C13")],
     "C11": [unit_read_signal("C11", "dispatch"), unit_read_signal("C11", "wds"), unit_read_signal("C11", "infer")],
-    "C16": [unit_std("C16", "accumulate_vector"), unit_std("C16", "apply_vector"), unit_std("C16", "have_stats"), unit_std_tensor("C16")],
+    "C16": [unit_std("C16", "accumulate_vector"), unit_std("C16", "apply_vector"), unit_std("C16", "have_stats"), unit_std_tensor("C16"), unit_std_apply_tensor("C16")],
     "C17": [unit_std("C17", "accumulate_vector"), _lazy("contracts.standardize", "unit_sanitize_accepts_saved", "C17")],
     "C08": [unit_alias_arg("C08")],
     "C18": [unit_pre("C18", "preemph"), unit_pre("C18", "dither")],
